@@ -77,9 +77,13 @@ class Run:
                     sim.set_input(item[1], su.real_period(item[2]), numpy.array(item[3], copy=True))
                 except Exception:      # noqa: BLE001
                     pass
-            else:                       # the clone() it was born from resets trace / debug
+            else:                       # the clone() it was born from resets trace / debug …
                 sim.debug = item[2]
                 sim.trace = item[1]
+                # … and starts without the parent's entries awaiting deletion (`invalidate_cache_entry` before the
+                # clone): the statement lists what a clone holds at birth — inputs, cached values, entity structure —
+                # and the marks are none of these
+                sim.invalidated_caches = set()
 
 
 def config(sim) -> tuple:
@@ -101,6 +105,7 @@ def structure(sim) -> dict:
             extra = (r, counts, has, [int(x) for x in pop.members_position], [int(x) for x in pop.ordered_members_map],
                      [int(x) for x in pop.nb_persons()])
         out[key] = (pop.count, [str(i) for i in pop.ids], None if mei is None else [int(g) for g in mei], extra)
+    out["describe_entities"] = {plural: [str(i) for i in ids] for plural, ids in sim.describe_entities().items()}
     return out
 
 
@@ -219,10 +224,11 @@ def execute(line: str):
             sim = sims[side]
             call = f"{sim_name(side)}.{text[1:]}"
             style = k * 5 + 3 * side + run.salt
-            touched_var = ev[1] if ev[0] in "skadgrqu" else None
+            touched_var = ev[1] if ev[0] in "skadgrqui" else None
             if ev[0] == "n":
                 before = snapshot(sim, vt)
-                new = sim.clone(debug=ev[2], trace=ev[1])
+                # (keywords, or the two arguments by position: `clone(debug, trace)`)
+                new = sim.clone(debug=ev[2], trace=ev[1]) if (k + run.salt) % 3 else sim.clone(ev[2], ev[1])
                 everything.append(new)
                 result = su.alias_graph(sim, new)
                 if verdict is None:
@@ -346,8 +352,8 @@ def fmt_via(via) -> str:
         return via
     if via[0] == "hr":
         return f"hr{via[1]}_" + "_".join(map(str, via[2]))
-    if via[0] == "nt":
-        return f"nt{via[1]}"
+    if via[0] in ("nt", "eq"):
+        return f"{via[0]}{via[1]}"
     return via[0] + "_".join(map(str, via[1]))
 
 
@@ -357,12 +363,12 @@ def fmt_formula(f) -> str:
     return str(f[0]) + "".join(f"+{c}*{d}.{fmt_via(via)}.{pt}" for c, d, via, pt in f[1])
 
 
-def V(e, u, d, f, vt="f", black=False):
-    return (e, u, d, f, vt, black)
+def V(e, u, d, f, vt="f", black=False, dispatch=False):
+    return (e, u, d, f, vt, ("^" if dispatch else "") + ("!" if black else ""))
 
 
 def fmt_sys(sysd) -> str:
-    return ";".join(f"{e}:{u}{'' if vt == 'f' else '~' + vt}{'!' if black else ''}:{d}:{fmt_formula(f)}"
+    return ";".join(f"{e}:{u}{'' if vt == 'f' else '~' + vt}{black or ''}:{d}:{fmt_formula(f)}"
                     for e, u, d, f, vt, black in sysd)
 
 
@@ -386,7 +392,7 @@ def fmt_op(op) -> str:
         return f"s:{op[1]}:{op[2]}:{','.join(map(str, op[3]))}"
     if op[0] == "d":
         return f"d:{op[1]}:{'*' if op[2] is None else op[2]}"
-    if op[0] in "kag":
+    if op[0] in "kagi":
         return f"{op[0]}:{op[1]}:{op[2]}"
     if op[0] in "qu":
         return f"{op[0]}:{op[3]}:{op[4]}:{op[1]}:{op[2]}"
@@ -407,7 +413,8 @@ def mk(sysd, spec, pre, flags, ops, tags=(), claimed=True) -> Case:
     """flags: (trace, debug) of the first clone (or a bool = trace); ops: [(side, op)], side = index or 'o' / 'c'"""
     if isinstance(flags, bool):
         flags = (flags, False)
-    sysd = [tuple(v) + ("f", False)[len(v) - 4:] if len(v) < 6 else tuple(v) for v in sysd]
+    sysd = [tuple(v) + ("f", "")[len(v) - 4:] if len(v) < 6 else tuple(v) for v in sysd]
+    sysd = [v[:5] + (("!" if v[5] else "") if isinstance(v[5], bool) else v[5],) for v in sysd]
     if len(spec) == 3:
         spec = S(spec[0], spec[1], None if spec[2] is None else (spec[2], []))
     # `calculate_add` over the eternal period is C03's business (refused by repair C03, `0` before it)
@@ -458,14 +465,16 @@ def gen_system(rng: random.Random, groups):
     unit = lambda: rng.choice(["month", "month", "month", "year", "eternity", "day"] if rng.random() < 0.3 else
                               ["month", "month", "month", "year", "eternity"])
     # inputs
-    sysd.append(V(0, "month", rng.choice([0, 0, 1, 5]), None))
-    sysd.append(V(0, unit(), rng.choice([0, 2]), None, rng.choice("fffi")))
+    # (a third of the numeric inputs take longer periods through set_input_dispatch_by_period: every definition period
+    #  inside that has no value yet — in THIS simulation's store — gets the array)
+    sysd.append(V(0, "month", rng.choice([0, 0, 1, 5]), None, dispatch=rng.random() < 0.35))
+    sysd.append(V(0, unit(), rng.choice([0, 2]), None, rng.choice("fffi"), dispatch=rng.random() < 0.3))
     sysd.append(V(rng.choice(gk or [0]), unit(), rng.choice([0, 3]), None, rng.choice("ffib")) if rng.random() < 0.8
                 else V(rng.choice(gk or [0]), unit(), rng.choice([0, 1]), None, "b"))
     if rng.random() < 0.5:
         sysd.append(V(rng.choice([0] + gk), "eternity", rng.choice([0, 7]), None))
     if rng.random() < 0.6:            # an input that is not a number: enum, text, date
-        sysd.append(V(rng.choice([0] + gk), unit(), rng.choice([0, 3, 7]), None, rng.choice("esd")))
+        sysd.append(V(rng.choice([0] + gk), unit(), rng.choice([0, 3, 7]), None, rng.choice("eeesd")))
         tags.append("typed-input")
     if sysd[2][4] == "b":
         sysd[2] = V(sysd[2][0], sysd[2][1], sysd[2][2] % 2, None, "b")
@@ -503,6 +512,13 @@ def gen_system(rng: random.Random, groups):
                 tags.append("unit-mismatch")
             pt = "l" if (u == "month" and sysd[d][1] == "month" and rng.random() < 0.15) else "s"
             terms.append((rng.choice([1, 1, 2, -1, 3]), d, via, pt))
+        enums = [d for d in range(i) if sysd[d][4] == "e" and sysd[d][0] == e and (sysd[d][1] == u or sysd[d][1] == "eternity")]
+        if enums and rng.random() < 0.6:
+            # an Enum variable compared with a member: what the formula gets — computed, cached, or copied with the
+            # store when the simulation was cloned — must be an EnumArray (bare indices equal no member)
+            d = rng.choice(enums)
+            terms.append((rng.choice([1, 4]), d, ("eq", rng.choice([0, 1, 2, 5, 9, sysd[d][2] % su.ENUM_SIZE])), "s"))
+            tags.append("enum-read")
         if u != "eternity" and gk and rng.random() < 0.35:      # role-dependent reads without a dependency
             if e == 0:
                 terms.append((rng.choice([1, 5]), 0, ("hr", rng.choice(gk), rng.choice(su.STD_ROLES)), "s"))
@@ -557,6 +573,11 @@ def gen_op(rng: random.Random, sysd, spec, tags, live=1):
     if r < 0.31:
         v = rng.randrange(nv) if rng.random() < 0.3 else rng.choice([i for i in range(nv) if sysd[i][3] is None])
         p = own_period(rng, sysd[v][1]) if rng.random() < 0.9 else any_period(rng)
+        if "^" in sysd[v][5] and rng.random() < 0.6:
+            p = rng.choice({"month": [Y18, Y17, "month/2018,1,1/3", "month/2017,12,1/2", "year/2017,1,1/2", "year/2017,7,1/1"],
+                            "year": ["year/2017,1,1/2", Y18], "day": ["day/2017,12,31/3", "month/2018,1,1/1", "day/2018,1,1/2"],
+                            "eternity": [ETERNITY, Y18]}[sysd[v][1]])
+            tags.append("dispatch")
         k = count.get(sysd[v][0], 1)
         if rng.random() < 0.04:
             k += rng.choice([-1, 1])
@@ -596,8 +617,14 @@ def gen_op(rng: random.Random, sysd, spec, tags, live=1):
         else:
             p = any_period(rng)
         return ("a", v, p)
-    if r < 0.95:
+    if r < 0.94:
         return ("t", rng.random() < 0.6)
+    if r < 0.975:
+        # an entry marked for deletion by hand: the next calculation that returns to an empty stack purges it (and
+        # everything its period contains) — on this simulation only
+        v = rng.randrange(nv)
+        tags.append("invalidate")
+        return ("i", v, own_period(rng, sysd[v][1]) if rng.random() < 0.85 else any_period(rng))
     return ("h", rng.randrange(nv))
 
 
@@ -629,7 +656,7 @@ def gen_events(rng: random.Random, sysd, spec, tags, lo: int, hi: int):
     for i in range(1, len(events)):
         if rng.random() < 0.25:
             s0, o0 = events[rng.randrange(i)]
-            if o0[0] in "skad" and o0[1] < len(sysd):
+            if o0[0] in "skadi" and o0[1] < len(sysd):
                 upto = 2 + sum(1 for _, e in events[:i] if e[0] == "n")
                 other = rng.choice([x for x in range(upto) if x != s0] or [s0])
                 if events[i][1][0] == "n":
@@ -704,8 +731,10 @@ def gen_spiral_case(rng: random.Random, lo: int, hi: int) -> Case:
             return ("d", v, rng.choice(MONTHS + [None, Y18]))
         if r < 0.9:
             return ("k", rng.randrange(1, len(sysd)), rng.choice(MONTHS))
-        if r < 0.95:
+        if r < 0.94:
             return ("a", rng.randrange(1, len(sysd)), rng.choice(["month/2018,1,1/3", "month/2017,12,1/2"]))
+        if r < 0.97:
+            return ("i", v, rng.choice(MONTHS + [Y18]))
         return ("t", rng.random() < 0.5)
 
     pre = [op() for _ in range(rng.choice([0, 0, 1, 2]))]
@@ -795,6 +824,20 @@ def corpus():
            (2, [], ([0], [4]), True, 2), [("s", 0, M1, [1, 2]), ("k", 1, M1), ("k", 2, M3), ("s", 3, M1, [5, 6]), ("k", 4, M1)], (False, True),
            [(1, ("k", 1, M1)), (1, ("k", 2, M3)), (0, ("k", 2, M2)), (1, ("n", True, False)), (2, ("k", 4, M2)), (2, ("s", 3, M2, [1, 1])),
             (0, ("k", 3, M2))], ("corpus", "config")),
+        # seeded change C13-8 (clone() copying the stored arrays with numpy.copy: an EnumArray comes out as bare indices):
+        # an Enum input present when the clone is taken, read in the clone directly and by a formula comparing it with a
+        # member; also for a group entity, an eternal Enum, and a value computed (cached) before the clone
+        mk([V(0, "month", 0, None, "e"), V(0, "month", 0, (0, [(1, 0, ("eq", 2), "s")])), V(1, "eternity", 3, None, "e"),
+            V(1, "month", 0, (10, [(4, 2, ("eq", 3), "s"), (1, 2, ("eq", 7), "s")]))], S(2, [(1, 2, [0, 1])]),
+           [("s", 0, M1, [2, 5]), ("s", 0, M2, [2, 2]), ("k", 1, M1), ("k", 2, M1), ("s", 2, ETERNITY, [7, 3])], (False, False),
+           [("c", ("k", 0, M1)), ("c", ("k", 1, M2)), ("c", ("u", 0, M2, "p", 0)), ("c", ("k", 3, M1)), ("o", ("k", 1, M2)),
+            ("c", ("n", False, False)), (2, ("k", 3, M2)), (2, ("k", 1, M1)), ("o", ("k", 3, M1))], ("corpus", "enum-arrays")),
+        # inputs given for longer periods (set_input_dispatch_by_period): each simulation fills the months / days that
+        # have no value in ITS store — the clone after deleting one, the original untouched by the clone's six months
+        Case(line="heap run 0:month^:0:-;0:day^:1:- 1/-/-/o0m1 s:0:month/2018,2,1/1:5;s:0:year/2018,1,1/1:7 00 "
+                  "cd:0:month/2018,3,1/1;cs:0:month/2018,1,1/6:9;os:1:day/2017,12,30/4:3;cs:1:month/2018,1,1/1:4;"
+                  "ok:0:month/2018,3,1/1;os:0:day/2018,1,15/1:8;cn:00;2s:0:year/2018,1,1/2:1;2d:0:*;2s:0:year/2018,7,1/1:2",
+             tags=("corpus", "dispatch")),
         # the example of Props/C13.lean
         mk([(0, "month", 0, None), (0, "month", 5, (3, [(2, 0, "s", "s")])), (1, "month", 0, (0, [(1, 0, "m", "s")])),
             (0, "eternity", 7, None),
@@ -822,8 +865,11 @@ PROP = Prop(
     rule=("one line = one history: a rule system of 5-9 variables built with type(...) (person and group entities; month, year, "
           "eternity and day definition periods; inputs of every value type - float, int, bool, enum, str, date - and float formulas "
           "`c + sum coef*dep` whose dependencies are read through population(dep, p), group.sum(group.members(dep, p)[, role=R]), "
-          "group.value_nth_person(k, ...), person.<group>(dep, p), group.nb_persons(role=R), person.has_role(R), parameters(period).p0 "
-          "(three-argument formula), at the requested period or at period.last_month; a quarter of the formulas are in the cache "
+          "group.value_nth_person(k, ...), person.<group>(dep, p), group.nb_persons(role=R), person.has_role(R), "
+          "population(enum_dep, p) == ENUM.member (an Enum input compared with a member), parameters(period).p0 "
+          "(three-argument formula), at the requested period or at period.last_month; a third of the numeric inputs declare "
+          "set_input = set_input_dispatch_by_period and are given years, quarters, several years, a month of days, also periods "
+          "FINER than their definition period; a quarter of the formulas are in the cache "
           "blacklist; rarely a self-reference through last_month (spiral), a same-period cycle, a unit or an entity mismatch; a "
           "formula without term returns a scalar); real Population / GroupPopulation objects of 1-4 persons in 0-2 group entities "
           "(roles r0 with two sub-roles, r1, r2 max 1; 3 in 4 assign explicit roles, half assign explicit members_position, often "
@@ -833,15 +879,19 @@ PROP = Prop(
           "simulations: set_input (own-unit periods, sometimes a foreign unit, a wrong length, an uncastable dtype, an unknown "
           "variable; lists, ndarrays of several dtypes, 0-dimensional values, enum members / names / indices; Period objects or "
           "period texts), set_input with the array OBJECT another simulation holds, delete_arrays (one period, a containing period, "
-          "everything), calculate, calculate_add, simulation.trace = b, get_holder, and further clone() calls on the original, on a "
+          "everything; set_input and delete_arrays addressed to the simulation, to the holder simulation.get_holder(v) hands out, or "
+          "to population.get_holder(v) of simulation.get_variable_population(v)), calculate, calculate_add, simulation.trace = b, "
+          "get_holder, invalidate_cache_entry(v, period) (an entry marked by hand: the next top-level calculation purges it and "
+          "what its period contains; an eternal variable marked under one period taints a read under another), and further clone() calls on the original, on a "
           "clone, on a clone's clone (up to 5 live simulations), made after calculations, failed requests and spirals; a quarter of "
           "the calls repeat an earlier call's variable and period on another simulation. A dedicated family runs variables defined "
           "from their own past on every simulation (spiral rule, invalidated entries, purge). Compared with the model at every "
           "clone(): the alias graph (id()-classes of simulation.persons / populations / tracer / invalidated_caches / "
           "_data_storage_dir, population.simulation / _holders / members, holder.population / simulation / _memory_storage / "
           "._arrays / _disk_storage / its directory, of parent and clone) and, after every event, its result and every observable "
-          "of every live simulation (known periods and vectors of every holder through get_known_periods / get_array, entity "
-          "structure with ids, the role and position of every member and nb_persons(role) for every role, what each part refers "
+          "of every live simulation (known periods and vectors of every holder through get_known_periods / get_array - the vector "
+          "of an Enum variable must be an EnumArray of the variable's enumeration, a bare index array is printed as another value -, entity "
+          "structure with ids, the role and position of every member, nb_persons(role) for every role and describe_entities(), what each part refers "
           "to, debug / opt_out_cache / max_spiral_loops, trace flag, recorded roots, stack depth, invalidated set). The oracle "
           "compares every live simulation after every event with a control built afresh and fed the simulation's own lineage of "
           "calls (its ancestors' calls up to each clone(), then its own). Non-trivial = some event after the first clone changed an "
@@ -863,7 +913,10 @@ PROP = Prop(
         "an eternal variable with a formula requested at ETERNITY raises in the code (get_formula prints the start instant); "
         "mirrored by the model, not counted; calculate_add over the eternal period is compared but not binding (C03)",
         "the control histories of the oracle run each side's own calls on a fresh identical simulation (built the same way, "
-        "same calls before the clone); for the clone's control `simulation.trace = <clone's trace argument>` installs the new tracer clone() installs",
+        "same calls before the clone); for the clone's control `simulation.trace = <clone's trace argument>` installs the new "
+        "tracer clone() installs, and the entries the parent had marked with invalidate_cache_entry and not purged yet are "
+        "dropped, as clone() drops them (the clone keeps those values cached; the statement's birth clause lists inputs, "
+        "cached values and entity structure, not the marks)",
     ],
     exhaustive_note="",
     level_text=("T on the model for ALL heaps and ALL interleavings: ownership of the clone (C13_clone_owns_itself), equality "
@@ -874,6 +927,8 @@ PROP = Prop(
                 "C13_disk_shared_counterexample); any number of closed simulations never interfere "
                 "(C13_family_noninterference) and every history of calls and clones - clones of clones, clones made after "
                 "failed requests and spirals - keeps the live simulations separate and clonable "
-                "(C13_histories_keep_simulations_separate). K: alias graph of the real objects at every clone() and every "
+                "(C13_histories_keep_simulations_separate); the interleaving theorem holds for ARBITRARY region-local "
+                "computations on the two sides, not only the listed calls (C13_any_local_operations_noninterfere: frame rule "
+                "+ induction). K: alias graph of the real objects at every clone() and every "
                 "observable of every live simulation after every event."),
 )
